@@ -21,7 +21,9 @@ DRIVER = "TraitsVerif/Driver/Legacy.lean"
 PROPS_MODULES = ["TraitsVerif.Props.C16"]
 TRANSLATORS = ["legacysrc"]
 RULE = ("names: 1-3 links over child (Instance) / kids (List) / byname (Dict) / group (Set; not with value-equality "
-        "nodes, which are unhashable) with '.' or ':' after each link, final "
+        "nodes, which are unhashable) with '.' or ':' after each link; 10% of the random names have a GROUP `[a,b]` / `[a,b,c]` of distinct link "
+        "traits at one position (legacy `[child,kids].value`, observe `[child,kids.items].value`) and 4% end in the "
+        "metadata name `+tag` (matches `value` only) - both real APIs and the oracle, not the Lean driver; final "
         "value|aux, handler signatures with 0, 3, 4 arguments (1 and 2 arguments with ':' links only, implementation + "
         "oracle only); histories of 1-12 operations built with a shadow tree so "
         "that ~60% of the mutations hit an object currently reachable along the name at the link the name follows "
@@ -68,7 +70,11 @@ ASSUMPTIONS = ["a detached container (replaced on its owner, still held by the c
                "tree-shaped graphs: an object added by a container change is fresh or was in that same container "
                "before the change (reorderings, carry-over reassignments); objects removed from the tree stay in the "
                "probe pool but are never re-inserted",
-               "common fragment only: no wildcards/metadata/?/* names, no ListenerGroup, no 1-/2-argument (DST) "
+               "group names and the metadata name `+tag`: differential of the two real APIs + reachability oracle; Lean: "
+               "C16_group_agree on the member-chain expansion (every member its own copy of the later items; the real "
+               "code shares them, unobservable on trees - oracle only); `*` recursion, `-` anytrait, prefix wildcards "
+               "and `?` names are not generated",
+               "Lean model: no wildcards/metadata/?/* names, ListenerGroup only as member expansion, no 1-/2-argument (DST) "
                "handlers in the model; dispatch other than 'same' is outside the agreement statement (the handler itself then "
                "runs at another time); what IS checked for dispatch='new'/'ui' is that the machinery's own re-registration "
                "handlers stay synchronous for every link kind (extra_checks + C16_reregistration_sync; F105-legacy-dict-dispatch, "
@@ -125,6 +131,13 @@ def corpus():
         "4 s. v|ss 0 2;rg;ga 0;gr 0 0;gx 0 0;ss 0 1;xa 0 s;xr 0 s;gc 0;rm",
         "0 c: s: v|sc 0 1;rg;ss 1 2;gr 1 1;gu 1 2;pv 3;rm",
         "K 4 s: v|ss 0 1;rg;ga 0;rm;rg",
+        # group names `[a,b]` (ListenerGroup: fan-out, the items share the next ListenerItem) and the metadata name `+tag`
+        # (wildcard branch of ListenerItem.register, trait_added hook): both real APIs + oracle
+        "#4 ck. v|sc 0 1;sk 0 2;rg;ap 0;sc 0 1;dl 0 0;pv 1;rm",
+        "#0 c. kb: x|rg;sc 0 1;ap 1;ds 1 0;px 2;sk 1 1;rm",
+        "#3 cs. c: m|rg;sc 0 1;ga 0;sc 1 1;sc 2 1;gr 0 0",
+        "#4 k: m|sk 0 1;rg;ap 0;pv 1;px 1;rm",
+        "#K 4 kb: v|sk 0 1;sb 0 1;rg;ap 0;ds 0 2;rm;rg",
         # detached containers: the caller keeps the list / dict / set a link held before it was reassigned
         # and mutates it (seeded change C16-m10); with a carry-over reassignment the detached list still
         # holds objects that are reachable through the new one
